@@ -177,6 +177,14 @@ def perturb(v, R):
         if not v: return None          # cannot perturb type-preservingly without knowing the element type
         w = list(v)
         k = R.randrange(len(w))
+        others = [x for x in w if x != w[k]]
+        mode = R.randrange(4)
+        if mode == 0 and others:
+            w[k] = R.choice(others)        # an entry replaced by a value that is already in the list (same length, same set)
+            return w
+        if mode == 1 and len(w) >= 2 and others:
+            j = R.choice([i for i, x in enumerate(w) if x != w[k]]); w[k], w[j] = w[j], w[k]    # two entries swapped (an ordered list)
+            return w
         if R.random() < 0.5 or len(w) == 1:
             w[k] = perturb(w[k], R) if not isinstance(w[k], list) else [perturb(w[k][0], R)] + w[k][1:]
         else:
@@ -255,6 +263,24 @@ def run_c15(ck, ctx):
         ck.case((si, 'input_drift'))
         if r4.returncode != 9:
             ck.violation('input_drift', {'what': 'a change of the input that alters a collected statistic is not reported against the old statistics file', 'exit': r4.returncode})
+        # the comparison must also happen in the modes that print no report: views, filtered data to stdout
+        for args in (['view', 'rdh'], ['view', 'its-readout-frames'], ['-f', str(pk[0].rdh['link'])], ['check', 'sanity', '-f', str(pk[0].rdh['link']), '-o', 'stdout']):
+            spn = os.path.join(wd, f'n_{si}.json')
+            if os.path.exists(spn): os.remove(spn)
+            subprocess.run([L.BIN, inp] + args + ['-S', spn, '-D', 'json'], stdout=subprocess.PIPE, stderr=subprocess.PIPE)
+            if not os.path.exists(spn): continue
+            stn = json.load(open(spn))
+            rA = subprocess.run([L.BIN, inp] + args + ['-i', spn, '-E', '9', '-v', '2'], stdout=subprocess.PIPE, stderr=subprocess.PIPE)
+            stn['rdh_stats']['rdhs_seen'] += 1
+            ppn = os.path.join(wd, 'pn.json'); json.dump(stn, open(ppn, 'w'))
+            rB = subprocess.run([L.BIN, inp] + args + ['-i', ppn, '-E', '9', '-v', '2'], stdout=subprocess.PIPE, stderr=subprocess.PIPE)
+            ck.case((si, 'noreport', tuple(args[:2]))); ck.count('noreport_modes')
+            eA = L.ANSI.sub('', rA.stderr.decode('utf-8', 'replace')); eB = L.ANSI.sub('', rB.stderr.decode('utf-8', 'replace'))
+            if 'mismatch!' in eA or 'Input stats matched collected stats' not in eA:
+                ck.violation('roundtrip', {'what': 'a statistics file written by a run without report is not accepted by the same run', 'args': args, 'exit': rA.returncode, 'stderr': eA[-300:]})
+            if rB.returncode != 9 or 'Input stats did not match' not in eB:
+                ck.violation('drift', {'what': 'a changed statistic is not reported as a mismatch (any-errors exit status) in a mode that prints no report', 'args': args,
+                                       'leaf': 'rdh_stats.rdhs_seen', 'exit': rB.returncode, 'stderr': eB[-300:], 'input_hex': G.encode(pk).hex()[:200000]})
     model = L.run_driver(reqs)
     dis = [(i, q[:200], e, m[:120]) for i, (q, m, e) in enumerate(zip(reqs, model, expect)) if not m.startswith(e)]
     ck.corr['statscmp_model'] = dict(cases=len(reqs), disagreements=len(dis))
@@ -466,6 +492,17 @@ def run_c19(ck, ctx):
                 for styled in (False, True):
                     jobs.append((si, view, flt, styled, data))
 
+    # `view rdh` walks the chain by offset-to-next and never reads the payload: it also serves paged layouts in which
+    # the next RDH lies beyond the end of the payload (offset to next > memory size); every column must be the header's
+    pk = G.random_framed_stream(R, 30, max_payload=200, nlinks=3)
+    blob = bytearray()
+    for p in pk:
+        pay = p.payload(); slack = R.choice([0, 16, 64, 512])
+        f = dict(p.rdh); f['size'] = 64 + len(pay); f['off'] = 64 + len(pay) + slack
+        blob += G.rdh_bytes(f) + pay + bytes(R.getrandbits(8) for _ in range(slack))
+    for styled in (False, True):
+        jobs.append((1000, 'rdh', None, styled, bytes(blob)))
+
     def job(j):
         si, view, flt, styled, data = j
         args = ['view', {'rdh': 'rdh', 'frames': 'its-readout-frames', 'data': 'its-readout-frames-data'}[view]] + ([] if styled else ['-d']) + flt_args(flt)
@@ -484,7 +521,7 @@ def run_c19(ck, ctx):
             from checks_scan import matches
             got = [(o, [t for t in toks]) for o, toks in parse_view_rdh(L.ANSI.sub('', r.stdout.decode('utf-8', 'replace')).encode(), start=10 if styled else 11)]
             exp = [(o, hdr_fields(h)) for o, h, p in chain_walk(data) if matches(flt, h)]
-            ok = len(got) == len(exp) and all(o == eo and int(t[0]) == f['ver'] and int(t[2]) == f['fee'] and int(t[5]) == f['link'] and int(t[7]) == f['bc']
+            ok = len(got) == len(exp) and all(o == eo and int(t[0]) == f['ver'] and int(t[2]) == f['fee'] and int(t[4]) == f['off'] and int(t[5]) == f['link'] and int(t[7]) == f['bc']
                                                and int(t[8], 16) == f['orbit'] and int(t[9]) == f['df'] and int(t[10], 16) == f['trig'] and int(t[11]) == f['page']
                                                and int(t[12]) == f['stop'] and int(t[13], 16) == f['det'] for (o, t), (eo, f) in zip(got, exp))
             if not ok:
